@@ -2109,7 +2109,7 @@ struct PlanDataT<
 	Bounds tasksBounds;
 	TasksBits tasksSuccesses;
 	TasksBits tasksFailures;
-	bool planExists;
+	bool planExists = false;
 	TaskStatus headStatus;
 	TaskStatus subStatus;
 
@@ -2158,7 +2158,7 @@ struct PlanDataT<
 	Bounds tasksBounds;
 	TasksBits tasksSuccesses;
 	TasksBits tasksFailures;
-	bool planExists;
+	bool planExists = false;
 	TaskStatus headStatus;
 	TaskStatus subStatus;
 
